@@ -26,6 +26,15 @@ package volatility
 //@ rel[C18] "price" use forall i :: mul_cmp(lam, closings[1][i], uppers[i])
 //@ rel[C18] "price" use forall i :: mul_cmp(lam, lowers[i], closings[1][i])
 //@ rel[C18] "price" ensures len(second(result)) == len(result) && (forall k :: 0 <= k && k < len(result) ==> second(result)[k] == result[k])
+//@ rel[C18] "volume" param mu real
+//@ rel[C18] "volume" assume mu > 0 && len(second(snapshots)) == len(snapshots) && (forall k :: 0 <= k && k < len(snapshots) ==> vscaled(second(snapshots)[k], snapshots[k], mu))
+//@ rel[C18] "volume" step forall i :: 0 <= i && i < len(snapshots) ==> second(arg(BollingerBands_Compute, 0, 0))[i] == 1 * arg(BollingerBands_Compute, 0, 0)[i]
+//@ rel[C18] "volume" step forall i :: 0 <= i && i < len(closings[1]) ==> second(closings[1])[i] == 1 * closings[1][i]
+//@ rel[C18] "volume" use[cond] stdS_pscale(arg(BollingerBands_Compute, 0, 0), second(arg(BollingerBands_Compute, 0, 0)), 1, b.BollingerBands.Period, _)
+//@ rel[C18] "volume" step forall i :: 0 <= i && i < len(uppers) ==> second(uppers)[i] == 1 * uppers[i] && second(lowers)[i] == 1 * lowers[i]
+//@ rel[C18] "volume" use forall i :: mul_cmp(1, closings[1][i], uppers[i])
+//@ rel[C18] "volume" use forall i :: mul_cmp(1, lowers[i], closings[1][i])
+//@ rel[C18] "volume" ensures len(second(result)) == len(result) && (forall k :: 0 <= k && k < len(result) ==> second(result)[k] == result[k])
 
 //@ func SuperTrendStrategy.Compute
 //@ requires consumed(snapshots) == 0
